@@ -126,7 +126,7 @@ class EquityIndexOption:
         k = self.strike_price
         if isinstance(model, Black):
             delta = model.delta(
-                forward_price, k, t_exp, df, self.option_type_value
+                forward_price, k, t_exp, df, self.option_type
             )
         else:
             raise FinError("Unknown Model Type")
@@ -156,7 +156,7 @@ class EquityIndexOption:
         k = self.strike_price
         if isinstance(model, Black):
             gamma = model.gamma(
-                forward_price, k, t_exp, df, self.option_type_value
+                forward_price, k, t_exp, df, self.option_type
             )
         else:
             raise FinError("Unknown Model Type")
@@ -186,7 +186,7 @@ class EquityIndexOption:
         k = self.strike_price
         if isinstance(model, Black):
             vega = model.vega(
-                forward_price, k, t_exp, df, self.option_type_value
+                forward_price, k, t_exp, df, self.option_type
             )
         else:
             raise FinError("Unknown Model Type")
@@ -216,7 +216,7 @@ class EquityIndexOption:
         k = self.strike_price
         if isinstance(model, Black):
             theta = model.theta(
-                forward_price, k, t_exp, df, self.option_type_value
+                forward_price, k, t_exp, df, self.option_type
             )
         else:
             raise FinError("Unknown Model Type")
